@@ -145,6 +145,9 @@ def make_value(kind, k):
         return ExcStr()
     if kind == "none":
         return None
+    if kind == "many-specials":
+        # forty special characters before the marker: escaping does not stop after the first few dozen
+        return "%sK%d%s" % (SPECIALS * 8, k, SPECIALS)
     if kind in ONE_SPECIAL:
         # a value whose only special character is one of the five (an escaper that special-cases
         # "nothing to escape" must still treat each of them alone)
@@ -155,7 +158,7 @@ def make_value(kind, k):
 
 ONE_SPECIAL = {"only-apos": "'", "only-quot": '"', "only-lt": "<", "only-gt": ">", "only-amp": "&"}
 VALUE_KINDS = ["str", "bytes", "obj", "strsub", "bytessub", "list", "bytearray",
-               "intsub", "badbytes", "excstr", "none"] + sorted(ONE_SPECIAL)
+               "intsub", "badbytes", "excstr", "none", "many-specials"] + sorted(ONE_SPECIAL)
 
 
 def make_ns(vals=None, with_funcs=True):
@@ -1528,3 +1531,50 @@ def world_skeleton(world):
     if opts:
         s += ";" + ",".join(opts)
     return s
+
+
+# ------------------------------------------------------------------ one loader, several directories
+def two_directory_cases():
+    """-> list of (label, files, [entry names]).  Two directories whose templates include / extend a sibling by the
+    same relative name; the loader cache must keep them apart whatever the order of loading."""
+    cases = []
+    for rel, how in (("part.txt", "include"), ("base.txt", "extends"), ("row.html", "include")):
+        if how == "include":
+            page = '{%% include "%s" %%}' % rel
+        else:
+            page = '{%% extends "%s" %%}{%% block b %%}{{ v }}{%% end %%}' % rel
+        ext = rel.rsplit(".", 1)[1]
+        files = {"a/index." + ext: page, "b/index." + ext: page}
+        if how == "include":
+            files["a/" + rel] = "{% autoescape None %}A[{{ v }}]"
+            files["b/" + rel] = "B[{{ v }}]\r\n  x"
+        else:
+            files["a/" + rel] = "{% autoescape None %}A<{% block b %}{% end %}>"
+            files["b/" + rel] = "B<{% block b %}{% end %}>"
+        cases.append(("%s:%s" % (how, rel), files, ["a/index." + ext, "b/index." + ext]))
+    return cases
+
+
+def run_two_directories():
+    """-> list of (sig, msg): every order of loading on one shared loader must render what a fresh loader renders."""
+    import itertools
+    from tornado import template
+    bad = []
+    n = 0
+    for label, files, entries in two_directory_cases():
+        fresh = {}
+        for e in entries:
+            fresh[e] = template.DictLoader(dict(files)).load(e).generate(v="<&>")
+        for order in itertools.permutations(entries):
+            for again in (False, True):
+                loader = template.DictLoader(dict(files))
+                seq = list(order) + (list(order) if again else [])
+                for e in seq:
+                    n += 1
+                    out = loader.load(e).generate(v="<&>")
+                    if out != fresh[e]:
+                        bad.append(("shared-loader:%s" % label.split(":")[0],
+                                    "%s: %r loaded after %r on one loader renders %r, on a fresh loader %r"
+                                    % (label, e, seq[:seq.index(e)], out, fresh[e])))
+                        break
+    return bad, n
